@@ -601,7 +601,7 @@ def genval(r, rng, sc, name=None):
     if k in ("Array", "LazyArray"):
         try:
             c = M.ev(a[0], sc)
-        except M.MissingKey:
+        except (M.MissingKey, TypeError):      # (a count computed from a member that only exists once the value is built)
             c = None
         if not isinstance(c, int):
             c = rng.randint(0, 3)
